@@ -11,7 +11,7 @@ EXPLANATION = ("R10.1 triaged inventory of every may-panic construct (overflow/b
                "sites are accepted; R10.3 no user callback (format function, dyn LogWriter/LogLineFilter method, Display of the message) under a "
                "non-reentrant lock; R10.4 the lock-order graph is acyclic; R10.5 blocking receives only in the consumer loops; R10.6 no panicking "
                "RefCell borrow; R10.7 loop inventory: every loop is iterator-driven, receive-driven, or a triaged loop whose termination guard is "
-               "checked structurally.")
+               "checked structurally. R10.1 also: the restart number is looked up in the same path component the sibling filter examined (F29 fixed).")
 ASSUMPTIONS = ["user format functions, writers and Display impls are total and return (they may log recursively)", "dependencies do not panic",
                "poisoning needs a panic under the lock, which R10.2 excludes"]
 NOT_DECIDED = ["termination of user code", "panics inside dependencies", "stack exhaustion of the 1 KiB flusher threads", "hangs caused by the OS"]
